@@ -27,7 +27,10 @@ EXPLANATION = (
     'dense (column-vector broadcast) and the sparse (LEFT diagonal product) '
     'branch, and the transpose builder derives populations from the same '
     'symmetrised matrix it normalises; (D4) reciprocal weights are taken only '
-    'under the weights > 0 mask, into a zero-initialised vector; (D5) sparse '
+    'under the weights > 0 mask, into a zero-initialised vector, and inside the '
+    'reversible estimator every division by a count deficit rowsum(C)[p] - C[p, q] '
+    '(zero for a state with all its counts in one cell: one-state chain, two-state '
+    'flip chain) is dominated by a test excluding zero; (D5) sparse '
     'input is densified with an ndarray (never bare np.matrix) and outputs are '
     're-wrapped in the input container; (D6) the stationary vector is the '
     'sum-normalised leading left eigenvector under a descending-real-part '
@@ -568,21 +571,90 @@ def d3_row_normalize(ck, mod, sigs):
 # ---------------------------------------------------------------------------
 # D3/D5: transpose
 
-SAME_TYPE = ['type(PRIOR__) is type(PROBS__)', 'type(PROBS__) is type(PRIOR__)', 'type(PRIOR__) == type(PROBS__)',
-             'type(PROBS__) == type(PRIOR__)', 'isinstance(PROBS__, type(PRIOR__))']
+# A test "do these two values live in the same container class?"
+_TYPE_CMP = ['type(_A) is type(_B)', 'type(_A) == type(_B)', 'isinstance(_A, type(_B))', '_A.__class__ is _B.__class__',
+             '_A.__class__ == _B.__class__', 'isinstance(_A, _B.__class__)', 'type(_A) is _B.__class__', '_A.__class__ is type(_B)']
+
+
+def _container_class(e):
+    """Container class of a symbolic value of `transpose`, as far as it is
+    fixed by construction:
+      'in'   the class of the builder's input (the counts with prior; type(C)(x))
+      'sum'  the class scipy gives `C + C.T` (csr for coo/lil/dia input ...); the
+             matrix _row_normalize returns is in the class of its ARGUMENT
+             (decided by C04.D5.container in _row_normalize), so the normalised
+             symmetrised counts are in this class too
+      None   anything else (a transpose turns csr into csc, arithmetic with
+             scalars may densify ...)."""
+    while isinstance(e, ast.Call) and isinstance(e.func, ast.Attribute) and e.func.attr == 'copy' and not e.args and not e.keywords:
+        e = e.func.value
+    if isinstance(e, ast.Name):
+        return 'in' if e.id == PRIOR else 'sum' if e.id in ('SYM__', 'PROBS__') else None
+    if isinstance(e, ast.Call) and isinstance(e.func, ast.Name) and e.func.id == '_recast' and len(e.args) == 2:
+        return _container_class(e.args[0])
+    if isinstance(e, ast.Call) and isinstance(e.func, ast.Name) and e.func.id == '_row_normalize' and len(e.args) == 1 and not e.keywords:
+        return _container_class(e.args[0])
+    return None
+
+
+def _type_tests(p, sigs):
+    """Container-class comparisons among the conditions of path `p`:
+    (same, vacuous, unread).  `same`: polarity of a test that compares the
+    class of the INPUT with the class of the symmetrised / normalised matrix
+    (None: no such test; 'both': contradictory tests); `vacuous`: [(polarity,
+    node)] of tests between two values that are in the same class by
+    construction - always true, they say nothing about the input's class;
+    `unread`: tests whose operands the rule cannot place."""
+    same, vacuous, unread = None, [], []
+    for k, (pol, node) in p.conds.items():
+        if k[0] == 'raises':
+            continue
+        b = smatch(_TYPE_CMP, node, sigs)
+        if b is None:
+            if 'type(' in u(node) or 'isinstance' in u(node) or '__class__' in u(node):
+                unread.append(node)
+            continue
+        ca, cb = _container_class(b['_A']), _container_class(b['_B'])
+        if ca is None or cb is None:
+            unread.append(node)
+        elif ca == cb:
+            vacuous.append((pol, node))
+        else:
+            same = pol if same in (None, pol) else 'both'
+    return same, vacuous, unread
+
+
+def _show(e):
+    """Symbolic value with the abbreviations of d3_transpose spelled out."""
+    return u(e).replace('PROBS__', '_row_normalize(C + C.T)').replace('SYM__', '(C + C.T)').replace(PRIOR, 'C')
+
+
+def _infeasible(p, sigs):
+    """The path assumes that two values which are in the same container class
+    by construction have different classes."""
+    return any(pol is False for pol, _ in _type_tests(p, sigs)[1])
 
 
 def _container(o, p, sigs, elt, inner, what):
     """`elt` must be `inner` when the input type already equals the type of
     the normalised matrix, and type(C)(inner) when it differs."""
     rule = 'C04.D5.container'
-    same = p.pol(SAME_TYPE, sigs)
+    same, vacuous, unread = _type_tests(p, sigs)
+    if same == 'both':
+        return None                     # contradictory type tests: not a feasible path
     sp = sparsity_cond(p, {PRIOR})
     msg = 'transpose must recast probs and C_sym to type(C) exactly when the types differ (C + C.T changes the sparse format)'
     if u(elt) == inner:
         if same is True or (same is None and sp is False):
             return o.check(True, rule, elt, 'same container type: returned as is', '', construct='%s: same type -> as is' % what)
-        if same is None and sp is None and not any('type(' in u(e) or 'isinstance' in u(e) for e in p.exprs()[1:]):
+        if same is None and sp is None and not unread and vacuous:
+            g = vacuous[0][1]
+            return o.check(False, rule, g, '', msg + '; the only type test in front of the recast, `%s`, compares two values that are in '
+                           'the same container by construction (_row_normalize returns its result in the container of its argument, here '
+                           'C + C.T): it never sees the type of the input, the recast is dead code and %s comes back in the container '
+                           'of C + C.T (csr_matrix for coo/lil/dia input)' % (_show(g)[:100], what),
+                           construct='%s: recast guarded by a type test that does not involve the input (%s)' % (what, _show(g)[:100]))
+        if same is None and sp is None and not unread:
             return o.check(False, rule, elt, '', msg + '; %s is returned without ever being recast' % what)
         if same is False or sp is True:
             return o.check(False, rule, elt, '', msg + '; %s is returned as is on the path where the types differ' % what)
@@ -590,7 +662,7 @@ def _container(o, p, sigs, elt, inner, what):
     if u(elt) == '_recast(%s, %s)' % (PRIOR, inner):
         if same is False or (same is None and sp is True):
             return o.check(True, rule, elt, 'outputs recast to the input container type', '', construct='%s: type differs -> type(C)(...)' % what)
-        if same is None and sp is None and any('type(' in u(e) or 'isinstance' in u(e) for e in p.exprs()[1:]):
+        if same is None and sp is None and (unread or vacuous):
             return o.missing(rule, 'recast guard of transpose not recognised: %s' % [u(e)[:80] for e in p.exprs()[1:]])
         return o.check(False, rule, elt, '', msg + '; %s is recast although the types agree (type(C)(x) is not a copy for ndarrays)' % what)
     return o.decide(sclassify(elt, [inner, '_recast(%s, %s)' % (PRIOR, inner)], {PRIOR, inner}, sigs), rule, elt, '', msg)
@@ -688,6 +760,8 @@ def d3_transpose(ck, mod, sigs):
                  construct='_row_normalize(C + C.T)' if smatch(['%s + %s.T' % (PRIOR, PRIOR), '%s.T + %s' % (PRIOR, PRIOR)], S, sigs) is not None else None)
         p = p0.abbrev({u(rn[0]): 'PROBS__', u(S): 'SYM__'}, sigs)
         n += 1
+        if _infeasible(p, sigs):
+            continue        # e.g. type(C_sym) is not type(_row_normalize(C_sym)): cannot happen
         e0, e1, e2 = p.value.elts
         # probabilities
         _container(o, p, sigs, e1, 'PROBS__', 'probs')
@@ -823,6 +897,278 @@ def d5_mle(ck, mod, sigs=None):
     ck.floor('C04.D6.mle-unpack', n, 1, 'return path of mle through the estimator')
 
 
+# ---------------------------------------------------------------------------
+# D4 (estimator): degenerate denominators
+#
+# The zero-row guard of _row_normalize has a counterpart inside the reversible
+# estimator.  With C the non-negative counts and rs = C.sum(axis=1) > 0,
+#     rs[p] - C[p, q]  >= 0,   and  == 0  iff state p has ALL its counts on q.
+# A sum of such terms over distinct rows vanishes for admissible input: the
+# one-state chain for (p, p), the two-state chain whose states only jump to
+# each other for (i, j) + (j, i) - both strongly connected.  Dividing by (a
+# constant multiple of) such a quantity therefore needs a test that excludes
+# zero, dominating the division, on the very same quantity.  Decided per
+# division: guarded / the quantity is never tested on the way = VIOLATION /
+# tested in a form the rule does not read = analysis incomplete.  Denominators
+# that depend on the iterate (X, its running row sums) need the invariant of
+# the iteration and are not decided here.
+
+_ROWSUM_WRAP = ('flatten', 'ravel', 'squeeze', 'copy')
+
+
+def _est_counts(fi, e, P, st, depth=4):
+    """`e`, evaluated at statement `st`, denotes the count matrix (parameter
+    `P`) of the estimator, up to value-preserving conversions and rebinding
+    (`C = C.copy().astype(float)`), and that matrix is never stored into."""
+    e = strip_conversions(e)
+    if not (isinstance(e, ast.Name) and depth > 0 and st is not None):
+        return False
+    try:
+        defs = fi.rd.defs_at(st, e.id)
+    except Exception:
+        return False
+    if not defs or 'UNBOUND' in defs or fi._mutated_in_place(e.id):
+        return False
+    for d in defs:
+        if d == 'PARAM':
+            if e.id != P:
+                return False
+            continue
+        v = fi.def_value(d, e.id)
+        if v is None or not _est_counts(fi, v, P, d, depth - 1):
+            return False
+    return True
+
+
+def _est_rowsums(fi, e, P, st):
+    """`e` (expanded) is the vector of row sums of the counts; returns True."""
+    while True:
+        if isinstance(e, ast.Call) and call_name(e) in _TO_NDARRAY + ('np.asanyarray', 'np.squeeze') and len(e.args) == 1 and \
+                all(k.arg == 'dtype' for k in e.keywords):
+            e = e.args[0]
+        elif isinstance(e, ast.Call) and isinstance(e.func, ast.Attribute) and e.func.attr in _ROWSUM_WRAP and not e.args and not e.keywords:
+            e = e.func.value
+        elif isinstance(e, ast.Attribute) and e.attr in ('A1',):
+            e = e.value
+        elif isinstance(e, ast.Call) and isinstance(e.func, ast.Attribute) and e.func.attr == 'astype' and len(e.args) == 1 and \
+                u(e.args[0]) in _F64:
+            e = e.func.value
+        else:
+            break
+    if not (isinstance(e, ast.Call) and isinstance(e.func, ast.Attribute) and e.func.attr == 'sum'):
+        return False
+    ax = [k.value for k in e.keywords if k.arg == 'axis'] + list(e.args[:1])
+    if len(ax) != 1 or len(e.args) + len(e.keywords) != 1:
+        return False
+    a = ax[0]
+    if isinstance(a, ast.UnaryOp) and isinstance(a.op, ast.USub) and isinstance(a.operand, ast.Constant):
+        val = -a.operand.value if isinstance(a.operand.value, int) else None
+    else:
+        val = a.value if isinstance(a, ast.Constant) else None
+    if val not in (1, -1) or isinstance(val, bool):
+        return False
+    return _est_counts(fi, e.func.value, P, st)
+
+
+def _nonzero_const(e):
+    if isinstance(e, ast.UnaryOp) and isinstance(e.op, (ast.USub, ast.UAdd)):
+        e = e.operand
+    return isinstance(e, ast.Constant) and isinstance(e.value, (int, float)) and not isinstance(e.value, bool) and e.value != 0
+
+
+def _strip_factor(e):
+    """Drop non-zero constant factors / divisors and float() casts: the result
+    vanishes exactly when `e` does."""
+    while True:
+        if isinstance(e, ast.BinOp) and isinstance(e.op, ast.Mult) and _nonzero_const(e.left):
+            e = e.right
+        elif isinstance(e, ast.BinOp) and isinstance(e.op, (ast.Mult, ast.Div)) and _nonzero_const(e.right):
+            e = e.left
+        elif isinstance(e, ast.Call) and call_name(e) in ('float', 'np.float64', 'abs', 'np.abs', 'np.double') and len(e.args) == 1 and not e.keywords:
+            e = e.args[0]
+        elif isinstance(e, ast.UnaryOp) and isinstance(e.op, (ast.USub, ast.UAdd)):
+            e = e.operand
+        else:
+            return e
+
+
+def _signed_leaves(e, sign=1, out=None):
+    out = [] if out is None else out
+    if isinstance(e, ast.BinOp) and isinstance(e.op, (ast.Add, ast.Sub)):
+        _signed_leaves(e.left, sign, out)
+        _signed_leaves(e.right, sign if isinstance(e.op, ast.Add) else -sign, out)
+    elif isinstance(e, ast.UnaryOp) and isinstance(e.op, (ast.USub, ast.UAdd)):
+        _signed_leaves(e.operand, -sign if isinstance(e.op, ast.USub) else sign, out)
+    else:
+        out.append((sign, e))
+    return out
+
+
+def _count_deficit(fi, e, P, st):
+    """Is the (expanded) expression `e`, up to a non-zero constant factor, a
+    sum of terms rowsum(C)[p] - C[p, q] over distinct rows p?  Returns the
+    canonical key (sorted tuple of (p, q) texts) or None."""
+    e = _strip_factor(e)
+    leaves = _signed_leaves(e)
+    pos = [x for s, x in leaves if s > 0]
+    neg = [x for s, x in leaves if s < 0]
+    if not pos or len(pos) != len(neg):
+        return None
+    rows = []
+    for x in pos:
+        if not (isinstance(x, ast.Subscript) and not isinstance(x.slice, (ast.Tuple, ast.Slice)) and _est_rowsums(fi, x.value, P, st)):
+            return None
+        rows.append(u(x.slice))
+    pairs = []
+    for x in neg:
+        if not (isinstance(x, ast.Subscript) and isinstance(x.slice, ast.Tuple) and len(x.slice.elts) == 2 and
+                not any(isinstance(i, ast.Slice) for i in x.slice.elts) and _est_counts(fi, x.value, P, st)):
+            return None
+        p, q = u(x.slice.elts[0]), u(x.slice.elts[1])
+        if p not in rows:
+            return None
+        rows.remove(p)
+        pairs.append((p, q))
+    pairs = sorted(set(pairs))          # (a + a: the same terms twice)
+    if len({p for p, _ in pairs}) != len(pairs):
+        return None          # two different entries of the same row: the sum need not be able to vanish
+    return tuple(pairs)
+
+
+def _zero_const(e):
+    return isinstance(e, ast.Constant) and isinstance(e.value, (int, float)) and not isinstance(e.value, bool) and e.value == 0
+
+
+def _guards_of(fi, mod, node):
+    """[(test, polarity, site)] known to hold when `node` is evaluated: the
+    conditional expressions / short-circuit operators around it inside its
+    statement and the branch conditions that dominate its statement."""
+    from ..cfg import Assume
+    out = []
+    ch, par = node, mod.parent.get(node)
+    while par is not None and not isinstance(par, ast.stmt):
+        if isinstance(par, ast.IfExp) and ch is not par.test:
+            out.append((par.test, ch is par.body, None))
+        if isinstance(par, ast.BoolOp) and ch in par.values:
+            for v in par.values[:par.values.index(ch)]:
+                out.append((v, isinstance(par.op, ast.And), None))
+        ch, par = par, mod.parent.get(par)
+    st = fi.stmt(node)
+    for a in fi.cfg.nodes:
+        if isinstance(a, Assume) and st is not None and fi.cfg.dominates(a, st):
+            out.append((a.test, a.polarity, a.owner))
+    return out, st
+
+
+def _same_operands(fi, e, site, st):
+    """The operands of the guard expression have the same reaching definitions
+    at the guard and at the division (the temporaries were expanded already;
+    the count matrix and its row sums are never stored into: see _est_counts)."""
+    if site is None or site is st:
+        return True
+    for n in ast.walk(e):
+        if isinstance(n, ast.Name) and isinstance(n.ctx, ast.Load):
+            if fi.rd.defs_at(site, n.id) != fi.rd.defs_at(st, n.id):
+                return False
+    return True
+
+
+def _guard_verdict(fi, mod, div, key, P):
+    """'nonzero' / 'zero' (the division runs exactly when the quantity IS
+    zero) / 'unread' (a test on the way mentions the quantity in a form the
+    rule does not read) / None (never tested)."""
+    from ..patterns import Cmp, conjuncts
+    guards, st = _guards_of(fi, mod, div)
+    verdict = None
+
+    def is_q(x, site):
+        try:
+            ex = fi.expand(x)
+        except Exception:
+            return False
+        return _count_deficit(fi, ex, P, st) == key and _same_operands(fi, ex, site, st)
+    for test, pol, site in guards:
+        cj = conjuncts(test, pol)
+        read = False
+        for c in (cj or []):
+            if isinstance(c, Cmp):
+                for g, other, op in ((c.lhs, c.rhs, c.op), (c.rhs, c.lhs, c.flipped().op)):
+                    if not is_q(g, site):
+                        continue
+                    # g OP other
+                    k = other.operand if isinstance(other, ast.UnaryOp) and isinstance(other.op, ast.USub) else other
+                    if not (isinstance(k, ast.Constant) and isinstance(k.value, (int, float)) and not isinstance(k.value, bool)):
+                        continue
+                    kv = -k.value if k is not other else k.value
+                    if (op is ast.NotEq and kv == 0) or (op is ast.Gt and kv >= 0) or (op is ast.GtE and kv > 0) or \
+                            (op is ast.Lt and kv <= 0) or (op is ast.LtE and kv < 0):
+                        return 'nonzero'
+                    if op is ast.Eq and kv == 0:
+                        verdict = 'zero'
+                        read = True
+                    elif op is ast.Eq and kv != 0:
+                        return 'nonzero'
+            elif isinstance(c, tuple) and c[0] == 'expr' and is_q(c[1], site):
+                if c[2]:
+                    return 'nonzero'        # truthiness of a number: != 0
+                verdict = 'zero'
+                read = True
+        if not read and verdict is None and any(isinstance(x, ast.expr) and not isinstance(x, ast.Constant) and is_q(x, site)
+                                                for x in ast.walk(test)):
+            verdict = 'unread'
+    return verdict
+
+
+def d4_estimator(ck, rel, qual, required):
+    rule = 'C04.D4.zero-denominator'
+    from ..core import AnalysisIncomplete
+    try:
+        mod = ck.repo.mod(rel)
+        fn = mod.func(qual)
+    except AnalysisIncomplete as e:
+        if required:
+            ck.missing(rule, 'estimator %s not found (%s)' % (qual, e))
+        return
+    ck.analysed(mod, fn)
+    fi = finfo(mod, fn)
+    P = params(fn)[0]
+    o = Once(ck, mod, fn, qual)
+    n = 0
+    for x in walk_local(fn):
+        if isinstance(x, ast.BinOp) and isinstance(x.op, (ast.Div, ast.FloorDiv, ast.Mod)):
+            den = x.right
+        elif isinstance(x, ast.Call) and call_name(x) in ('np.divide', 'np.true_divide', 'numpy.divide') and len(x.args) >= 2:
+            den = x.args[1]
+        elif isinstance(x, ast.Call) and call_name(x) in ('np.reciprocal',) and len(x.args) == 1:
+            den = x.args[0]
+        else:
+            continue
+        try:
+            key = _count_deficit(fi, fi.expand(den), P, fi.stmt(x))
+        except Exception:
+            key = None
+        if key is None:
+            continue
+        n += 1
+        what = ' + '.join('(rowsum[%s] - C[%s, %s])' % (p, p, q) for p, q in key)
+        v = _guard_verdict(fi, mod, x, key, P)
+        stmt_text = ' '.join(u(fi.stmt(x) or x).split())[:100]
+        if v == 'unread':
+            o.missing(rule, '%s: the divisor `%s` = %s (zero for a state whose counts all sit in one cell) is tested on the way to `%s`, '
+                      'but not in a form the rule reads (== 0, != 0, > 0, truthiness)' % (qual, u(den)[:40], what, stmt_text))
+            continue
+        o.check(v == 'nonzero', rule, x, 'the degenerate case (all counts of the rows involved in one cell) is excluded before the division',
+                '%s divides by `%s` = %s%s. For non-negative counts this is >= 0 and it IS zero for admissible input (a state '
+                'whose outgoing counts all sit in that one cell: the one-state chain, the strongly connected two-state chain '
+                '[[0, p], [q, 0]]), so the quotient is inf/nan, X, T and pi fill with nan and the builder raises or returns no model; '
+                'the division needs a dominating test of that quantity against zero (`if a == 0: v = X[j, i]` in the Prinz update)'
+                % (qual, u(den)[:40], what, ' on the branch where that quantity equals zero' if v == 'zero' else
+                   ' and no test of that quantity against zero lies on the way'),
+                construct='%s: division by %s %s' % (qual, what, 'guarded against zero' if v == 'nonzero' else 'without a zero guard'))
+    if required:
+        ck.floor(rule, n, 1, 'division by a count deficit rowsum(C)[p] - C[p, q] in %s' % qual)
+
+
 def d6_normalize(ck, mod, sigs):
     rule = 'C04.D6.normalize'
     fn, aps = builder_paths(ck, mod, 'normalize', sigs)
@@ -868,6 +1214,8 @@ def check(ck):
     _guarded(ck, 'C04.D3.transpose', d3_transpose, mod, sigs)
     _guarded(ck, 'C04.D5.container', d5_mle, mod, sigs)
     _guarded(ck, 'C04.D6.normalize', d6_normalize, mod, sigs)
+    _guarded(ck, 'C04.D4.zero-denominator', d4_estimator, BU, '_prinz_mle_py', True)
+    _guarded(ck, 'C04.D4.zero-denominator', d4_estimator, LM, '_mle_prinz_dense', False)
     _guarded(ck, 'C04.D6.spectrum', check_spectrum, 'C04.D6')
     check_no_arg_mutation(ck, 'C04.D2.inputs-unmodified', [
         (BU, 'mle'), (BU, 'transpose'), (BU, 'normalize'),
